@@ -32,7 +32,7 @@ Lemma add_var_rd cfg r sc name t suffix r' sc' idx :
   add_var cfg r sc name t suffix = Ok (r', sc', idx) -> benign_pkgs cfg r (refs t) = true -> RD r -> RD r'.
 Proof.
   unfold add_var. destruct (populate cfg r (refs t) []) as [[r1 imps]| | | |] eqn:P; try discriminate.
-  cbn [bind]. destruct (_ && _); [discriminate|].
+  cbn [bind].
   match goal with |- bind ?x _ = _ -> _ => destruct x as [[n2 sc2]| | | |]; try discriminate end.
   cbn [bind]. intros E B R. inversion E; subst. eapply populate_rd; eassumption.
 Qed.
